@@ -13,7 +13,7 @@ func (p1 *PanConfig) MergeSpoc(c2 deviceconf.Config) deviceconf.Config {
 	processVsysPairs(p1, p2, func(v1, v2 *panVsys) error {
 		// Create empty vsys in p1 to add complete vsys from p2 below.
 		if v1 == nil {
-			if p1 == nil || p1.Devices == nil {
+			if p1 == nil || p1.Devices == nil || len(p1.Devices.Entries) == 0 {
 				p1 = &PanConfig{
 					Devices: &panDevices{
 						Entries: []*panDevice{&panDevice{}},
